@@ -23,8 +23,9 @@ EXHAUSTIVE = True
 RULE = ("a case = one (data type, labels, rows, namespace configuration, construction route, target format variant) "
         "round trip write -> read-as-same-type, or one data set (1-3 namespaces x content pattern x namespace-label "
         "pattern x add order x schema x suppress_block_titles) round trip, or one taxon label in a 2-row matrix; "
-        "matrices: every symbol of the type's symbol set at 1x1, all ordered pairs at 1x2 and 2x1, cyclic fills of "
-        "every r x c up to the tier bound at every offset, wrap-boundary lengths, multistate tokens; non-trivial = "
+        "matrices: every symbol of the type's symbol set at 1x1, all ordered tuples at 1x2, 2x1, 2x2-diagonal and (per tier) "
+        "1x3, 3x1, 1x4, cyclic fills of every r x c up to the tier bound at every alphabet offset, ragged rows (FASTA/NeXML), "
+        "wrap-boundary lengths, multistate tokens, namespaces with an unsequenced member; non-trivial = "
         "every case (a non-empty matrix is written and re-read); distinct = distinct descriptor tuples")
 ASSUMPTIONS = [
     "symbol tables (IUPAC nucleotide / amino-acid ambiguity codes, X as synonym of N, case-insensitivity) are the harness's own",
@@ -48,8 +49,10 @@ MANIFEST = {
              "back from NEXUS and NeXML with every tree list and matrix on a namespace with exactly its own labels; every "
              "admissible single-character and two-special-character taxon label survives in NEXUS and NeXML."),
     "note": ("Trusted: the harness's symbol tables and document templates, Python's float repr round trip, "
-             "xml.etree for NeXML well-formedness.  Bounded: matrices up to 3x3 (quick) / 4x4 (thorough) plus rows of "
-             "up to 141 cells, labels with at most two special characters, three namespaces."),
+             "the library's own XML parser for NeXML well-formedness.  Bounded: every-offset cyclic fills up to 3x3 (quick) / "
+             "5x5 (thorough), all symbol tuples up to 1x3 / 1x4, rows of up to 141 / 211 cells, labels with at most two "
+             "(thorough: three) special characters, three namespaces.  Layers that vary one thing against a baseline case "
+             "(unsequenced namespace member, parse history, label) report only what the baseline case does not show."),
 }
 
 # ---------------------------------------------------------------------------
@@ -588,6 +591,12 @@ def baseline_of(case):
         c = dict(case, nsconf="exact")
         c.pop("layer")
         return c
+    if layer == "label":
+        labs = list(case["labels"])
+        labs[case.get("label_pos", 0)] = "xy"
+        c = dict(case, labels=labs)
+        c.pop("layer")
+        return c
     return None
 
 
@@ -651,7 +660,7 @@ def _culprit(case, sig):
 # ---------------------------------------------------------------------------
 # enumeration of matrix contents
 
-SIMPLE_LABELS = ["a", "b", "c", "d"]
+SIMPLE_LABELS = ["a", "b", "c", "d", "e"]
 
 
 def cyclic(dtype, r, c, offset, alpha=None):
@@ -713,7 +722,11 @@ def chunks(tier):
             arity = 2 if shape == "2x2-diagonal" else max(int(z) for z in shape.split("x"))
             step = max(1, 150 // (n ** (arity - 1)))
             for lo in range(0, n, step):
-                out.append({"kind": "cells", "dtype": dtype, "shape": shape, "lo": lo, "hi": min(n, lo + step), "tier": tier})
+                ch = {"kind": "cells", "dtype": dtype, "shape": shape, "lo": lo, "hi": min(n, lo + step), "tier": tier}
+                if n ** (arity - 1) > 1000:       # keep work units small: also fix the second symbol
+                    out.extend(dict(ch, second=j) for j in range(n))
+                else:
+                    out.append(ch)
         for r in range(1, b["max_rows"] + 1):
             for c in range(1, b["max_cols"] + 1):
                 out.append({"kind": "fills", "dtype": dtype, "r": r, "c": c, "routes": "api", "tier": tier})
@@ -780,7 +793,10 @@ def gen_cells(chunk):
             k = max(r, c)
             assert min(r, c) == 1
             combos = []
-            for rest in itertools.product(a, repeat=k - 1):
+            pools = [a] * (k - 1)
+            if "second" in chunk:
+                pools[0] = [a[chunk["second"]]]
+            for rest in itertools.product(*pools):
                 cells = [x] + list(rest)
                 combos.append([cells] if r == 1 else [[z] for z in cells])
         for rows in combos:
@@ -790,8 +806,7 @@ def gen_cells(chunk):
 
 
 def gen_fills(chunk):
-    dtype, r, c, tier = chunk["dtype"], chunk["r"], chunk["c"], chunk["tier"]
-    b = bounds(tier)
+    dtype, r, c = chunk["dtype"], chunk["r"], chunk["c"]
     n = len(alphabet(dtype))
     labels = SIMPLE_LABELS[:r]
     vs = variants_for(dtype)
